@@ -33,7 +33,8 @@ RULES = {
            "same equality is checked on recovered crash images by C01 and after fault recovery by C11.",
     "C18": "one case = seeded lifecycle over {create writer (valid / budget too small / too large / zero threads) on either of two Index "
            "handles, rollback, drop, wait_merging_threads, attempt while locked, 2..3 racing creations from threads, kill a worker by "
-           "I/O errors then drop} against a 1-bit lock model, on tantivy's file-based lock (70%) or the harness flock (30%). "
+           "I/O errors then drop, rollback under I/O errors then retry, wait_merging_threads with a merge in flight while two "
+           "threads try to create a writer; racing holders add+commit one document each} against a 1-bit lock model, on tantivy's file-based lock (70%) or the harness flock (30%). "
            "Non-trivial: >=1 refused attempt or one race.",
     "C20": "one case = an index written by a seeded history under short writes / EINTR on every writer; then for every file of every "
            "committed segment: every single-bit flip of the body (files with body <= 96 B in quick, <= 4 KiB in thorough; else sampled "
@@ -44,8 +45,9 @@ RULES = {
            "N storage operations), then re-executed once per fault point: an I/O error at storage op k -- quick: 24 stratified k "
            "per base case with one flavour each, thorough: every k x {fails once, fails from k on, ENOSPC from k on} -- on whichever "
            "thread issues op k (indexing worker, doc-store compressor, segment updater, merge thread, GC, reader side of the "
-           "harness), with torn writes and lazy read handles as swarm options, plus thread-spawn failures at sampled/every spawn "
-           "index. evaluations = base executions + faulted executions; non-trivial: the fault fired inside the workload; distinct: "
+           "harness incl. reloads of a reader on a second Index), with torn writes and lazy read handles as swarm options, plus "
+           "thread-spawn failures at sampled/every spawn index; once a fault has fired the state on storage is re-opened and "
+           "matched against the allowed commits after every further operation. evaluations = base executions + faulted executions; non-trivial: the fault fired inside the workload; distinct: "
            "storage event-log hash of the faulted execution.",
     "C01": "one case = swarm configuration + operation history (adds, deletes, batches, delete_all, commits, prepared commits, "
            "rollbacks, merges, writer restarts, GC; short writes and EINTR on every writer) executed under a seeded schedule; "
@@ -63,8 +65,11 @@ RULES = {
     "C02": "one case = seeded swarm configuration (1..8 indexing threads, merge policy, segment-cut knob, store settings, "
            "sorted or not, lock flavour) + seeded operation history over {add, delete_term, delete_query, run(batch), "
            "delete_all, commit, prepare_commit+payload/abort, rollback, merge, wait_merging_threads, drop+reopen, gc} + "
-           "seeded scheduler strategy (random / pct(1..4) / burst / starve(thread class)); producers variant: 1..3 threads "
-           "on a shared writer checked for linearizability. Non-trivial: >=1 commit acknowledged with documents (or >=2 "
+           "seeded scheduler strategy (random / pct(1..4) / burst / starve(thread class) / stall(thread class)); swarm knobs: "
+           "segment cut after N docs, 15 MB or 3 MB budget, pipeline capacity 1..4 or 10 000; producers variant: 2..4 threads "
+           "calling add_document / delete_term / run(group) on a shared writer, checked for linearizability (real-time order) "
+           "and commit opstamp above every returned opstamp; plus scenario sweeps (scenarios/C02: thousands of seeded schedules "
+           "of small fixed histories). Non-trivial: >=1 commit acknowledged with documents (or >=2 "
            "commits). Distinct: different hash of the complete storage event log (thread, op kind, path, length, outcome).",
     "C04": "as C02 with a merge-heavy grammar (explicit merges of seeded segment subsets, left pending or waited, policy "
            "merges) and starve(merge_thread|segment_updater|worker) schedules; every meta.json publication (commit and "
